@@ -45,7 +45,7 @@ def rand_san(rng, expect, realm):
     if k < 0.35:
         return "dns:" + hx(variants(rng, rng.choice(expect)))
     if k < 0.45:
-        return "uri:" + hx(rng.choice([b"https://", b"radsec://", b""]) + variants(rng, rng.choice(expect)))
+        return "uri:" + hx(rng.choice([b"https://", b"radsec://", b"", b"https://"]) + variants(rng, rng.choice(expect)) + rng.choice([b"", b"", b"/radsec"]))
     if k < 0.55:
         return "ip:" + hx(rng.choice([bytes([192, 0, 2, 7]), bytes([192, 0, 2, 8]), bytes(16), bytes([192, 0, 2]), b"", bytes([0x20, 1, 0xd, 0xb8] + [0] * 11 + [1]),
                                       # the other family's look-alikes: an IPv6 term's first four octets as an IPv4 entry, an IPv4 term zero-padded to 16 octets
@@ -69,6 +69,9 @@ def rand_term(rng, expect):
     if k == 1:
         return b"SubjectAltName:DNS:" + rx
     if k == 2:
+        # (an expression may contain '/' itself - URIs do -: it ends at the LAST '/' of the term, not at the first one)
+        if rng.random() < 0.5:
+            rx = rng.choice([b"/^https://" + esc + b"$/", b"/^https://" + esc + b"/radsec$/", b"/^radsec://" + esc + b"/", b"/://" + esc + b"$/"])
         return b"SubjectAltName:URI:" + rx
     if k == 3:
         return b"SubjectAltName:IP:" + rng.choice([b"192.0.2.7", b"192.0.2.8", b"10.0.0.1", b"2001:db8::1", b"2001:db8::1", b"::ffff:192.0.2.7", b"::"])
